@@ -30,6 +30,9 @@ type Case struct {
 	Order int    `json:"order,omitempty"` // derivative order tracked by Real operands (0,1,2)
 	Cold  *V     `json:"cold,omitempty"`  // previous value of the receiver (ABS)
 	Tgt   int    `json:"tgt,omitempty"`   // target type of conversions / constructors
+	VX    *VRep  `json:"vx,omitempty"`    // round 5: vector operand given as a representation (sparse / view / ...) instead of X
+	VY    *VRep  `json:"vy,omitempty"`    // second vector operand (VdotV)
+	MA    *MRep  `json:"ma,omitempty"`    // matrix operand given as a representation instead of N, M, X
 }
 
 type entry struct {
@@ -210,6 +213,26 @@ func (o *orc) mnorm(tc int, a ad.ConstMatrix) {
 			o.pow(t, a.ConstAt(i, j), two(tc))
 		}
 	}
+}
+
+// operands of the reductions: a representation when the case names one, else the dense vector / matrix of X
+func (c Case) vecX() ad.ConstVector {
+	if c.VX != nil {
+		return c.VX.build()
+	}
+	return mkVec(c.TV, c.X)
+}
+func (c Case) vecY() ad.ConstVector {
+	if c.VY != nil {
+		return c.VY.build()
+	}
+	return mkVec(c.TV, c.Y)
+}
+func (c Case) matA() ad.ConstMatrix {
+	if c.MA != nil {
+		return c.MA.build()
+	}
+	return mkMat(c.TV, c.X, c.N, c.M)
 }
 
 // quiet runs a shadow; a panic inside it (integer division by zero, ...) just ends the recording
@@ -412,43 +435,63 @@ func run(c Case) (res Result) {
 		res.Obs, res.Kind, res.Int, res.Text = "OInt "+Z(z), "int", z, fmt.Sprint(z)
 	case "SmoothMax":
 		recv := mkRecv(c.TC)
-		x := mkVec(c.TV, c.X)
 		t := [2]ad.Scalar{mkRecv(c.TT[0]), mkRecv(c.TT[1])}
-		quiet(func() { o.smoothMax(mkVec(c.TV, c.X), ad.ConstFloat64(p), [2]ad.Scalar{mkRecv(c.TT[0]), mkRecv(c.TT[1])}) })
+		quiet(func() { o.smoothMax(c.vecX(), ad.ConstFloat64(p), [2]ad.Scalar{mkRecv(c.TT[0]), mkRecv(c.TT[1])}) })
 		res.Coq = fmt.Sprintf("CSmoothMax %s %s %s %s %s", tcq, types[c.TT[0]].Coq, types[c.TT[1]].Coq, coqvList(c.X), F(p))
-		setRet(callMethod(recv, c.Op, x, ad.ConstFloat64(p), t), recv)
+		if c.VX != nil {
+			res.Coq = vcallCoq(fmt.Sprintf("VcSmoothMax %s %s %s %s %s", tcq, types[c.TT[0]].Coq, types[c.TT[1]].Coq, c.VX.coq(), F(p)))
+		}
+		setRet(callMethod(recv, c.Op, c.vecX(), ad.ConstFloat64(p), t), recv)
 	case "LogSmoothMax":
 		recv := mkRecv(c.TC)
-		x := mkVec(c.TV, c.X)
 		t := [3]ad.Scalar{mkRecv(c.TT[0]), mkRecv(c.TT[1]), mkRecv(c.TT[2])}
 		quiet(func() {
-			o.logSmoothMax(mkRecv(c.TC), mkVec(c.TV, c.X), ad.ConstFloat64(p), [3]ad.Scalar{mkRecv(c.TT[0]), mkRecv(c.TT[1]), mkRecv(c.TT[2])})
+			o.logSmoothMax(mkRecv(c.TC), c.vecX(), ad.ConstFloat64(p), [3]ad.Scalar{mkRecv(c.TT[0]), mkRecv(c.TT[1]), mkRecv(c.TT[2])})
 		})
 		res.Coq = fmt.Sprintf("CLogSmoothMax %s %s %s %s %s %s %s", tcq, types[c.TT[0]].Coq, types[c.TT[1]].Coq, types[c.TT[2]].Coq,
 			types[c.TV].Coq, coqvList(c.X), F(p))
-		setRet(callMethod(recv, c.Op, x, ad.ConstFloat64(p), t), recv)
+		if c.VX != nil {
+			res.Coq = vcallCoq(fmt.Sprintf("VcLogSmoothMax %s %s %s %s %s %s %s", tcq, types[c.TT[0]].Coq, types[c.TT[1]].Coq, types[c.TT[2]].Coq,
+				types[c.VX.TV].Coq, c.VX.coq(), F(p)))
+		}
+		setRet(callMethod(recv, c.Op, c.vecX(), ad.ConstFloat64(p), t), recv)
 	case "Vmean":
 		recv := mkRecv(c.TC)
 		res.Coq = fmt.Sprintf("CVmean %s %s", tcq, coqvList(c.X))
-		setRet(callMethod(recv, c.Op, mkVec(c.TV, c.X)), recv)
+		if c.VX != nil {
+			res.Coq = vcallCoq(fmt.Sprintf("VcVmean %s %s", tcq, c.VX.coq()))
+		}
+		setRet(callMethod(recv, c.Op, c.vecX()), recv)
 	case "VdotV":
 		recv := mkRecv(c.TC)
 		res.Coq = fmt.Sprintf("CVdotV %s %s %s", tcq, coqvList(c.X), coqvList(c.Y))
-		setRet(callMethod(recv, c.Op, mkVec(c.TV, c.X), mkVec(c.TV, c.Y)), recv)
+		if c.VX != nil {
+			res.Coq = vcallCoq(fmt.Sprintf("VcVdotV %s %s %s", tcq, c.VX.coq(), c.VY.coq()))
+		}
+		setRet(callMethod(recv, c.Op, c.vecX(), c.vecY()), recv)
 	case "Vnorm":
 		recv := mkRecv(c.TC)
-		quiet(func() { o.vnorm(c.TC, mkVec(c.TV, c.X)) })
+		quiet(func() { o.vnorm(c.TC, c.vecX()) })
 		res.Coq = fmt.Sprintf("CVnorm %s %s", tcq, coqvList(c.X))
-		setRet(callMethod(recv, c.Op, mkVec(c.TV, c.X)), recv)
+		if c.VX != nil {
+			res.Coq = vcallCoq(fmt.Sprintf("VcVnorm %s %s", tcq, c.VX.coq()))
+		}
+		setRet(callMethod(recv, c.Op, c.vecX()), recv)
 	case "Mtrace":
 		recv := mkRecv(c.TC)
 		res.Coq = fmt.Sprintf("CMtrace %s %d %d %s", tcq, c.N, c.M, coqvList(c.X))
-		setRet(callMethod(recv, c.Op, mkMat(c.TV, c.X, c.N, c.M)), recv)
+		if c.MA != nil {
+			res.Coq = vcallCoq(fmt.Sprintf("VcMtrace %s %s", tcq, c.MA.coq()))
+		}
+		setRet(callMethod(recv, c.Op, c.matA()), recv)
 	case "Mnorm":
 		recv := mkRecv(c.TC)
-		quiet(func() { o.mnorm(c.TC, mkMat(c.TV, c.X, c.N, c.M)) })
+		quiet(func() { o.mnorm(c.TC, c.matA()) })
 		res.Coq = fmt.Sprintf("CMnorm %s %d %d %s", tcq, c.N, c.M, coqvList(c.X))
-		setRet(callMethod(recv, c.Op, mkMat(c.TV, c.X, c.N, c.M)), recv)
+		if c.MA != nil {
+			res.Coq = vcallCoq(fmt.Sprintf("VcMnorm %s %s", tcq, c.MA.coq()))
+		}
+		setRet(callMethod(recv, c.Op, c.matA()), recv)
 	case "ConvertScalar", "ConvertConstScalar", "ConvertMagicScalar":
 		k := map[string]string{"ConvertScalar": "CConvS", "ConvertConstScalar": "CConvC", "ConvertMagicScalar": "CConvM"}[gname]
 		res.Coq = fmt.Sprintf("%s %s %s", k, c.A[0].coq(), types[c.Tgt].Coq)
